@@ -1005,6 +1005,8 @@ def check(tier, seed):
     table_check(run)
     campaign(run, tier, seed, ('C05',))
     loop_gap(run, tier)
+    from harness import wqueue
+    wqueue.run_pass(run, tier, seed)  # the order in which "up" / "down" reach the helper: the API write queue
     run.trusted = TRUSTED
     run.assumptions = ASSUMPTIONS
     return run.finish(checker_cmd='cd /verif/coq && coqc -Q . ExaV props/Prop_C05.v')
